@@ -148,7 +148,7 @@ IntOps ==
      Op("U.add.prim", "total", <<"U", "Pu">>, 0), Op("U.sub.prim", "usub", <<"U", "Pu">>, 0),
      Op("prim.sub.U", "usub", <<"Pu", "U">>, 0), Op("U.mul.prim", "total", <<"U", "Pu">>, 0),
      Op("I.add.prim", "total", <<"I", "Pa">>, 0), Op("I.sub.prim", "total", <<"I", "Pa">>, 0),
-     Op("prim.sub.I", "total", <<"Pa", "I">>, 0), Op("I.mul.prim", "total", <<"I", "Pa">>, 0),
+     Op("prim.sub.I", "total", <<"Pa", "I">>, 0), Op("prim.div.I", "div", <<"Pa", "I">>, 0), Op("I.mul.prim", "total", <<"I", "Pa">>, 0),
      Op("I.and.prim", "total", <<"I", "Pa">>, 0),
      Op("U.gcd", "gcd", <<"U", "U">>, 0), Op("U.gcd_ext", "gcd", <<"U", "U">>, 0),
      Op("I.gcd", "gcd", <<"I", "I">>, 0), Op("I.gcd_ext", "gcd", <<"I", "I">>, 0),
